@@ -228,7 +228,12 @@ def oracle_as(c, out):
         return bad
     mus = np.linalg.eigvals(As)
     w = pencil_ok(c, mus)
-    if w > 1e-7:
+    # LAPACK's eigenvalues of a badly row-scaled As (a time constant of 1e-9 next to ones of order one) carry an absolute
+    # error of about eps * |As|, i.e. eps / Tmin: the residual tolerance grows with it (the exact-arithmetic correspondence
+    # of the state matrix itself is not affected)
+    tmin = min([abs(t) for t in c['Tf'] if t != 0] or [1.0])
+    ptol = 1e-7 * max(1.0, 1e-7 / tmin)
+    if w > ptol:
         if len(z) == 0:
             bad.append(('modes-not-pencil', 'an eigenvalue of As is not a generalised eigenvalue (rel. smin %.2e)' % w))
         else:
